@@ -221,15 +221,8 @@ Fixpoint parse_stream (cfg : config) (cnt : counters) (msgs : list bytes) : list
   | m :: ms => let r := parse cfg cnt m in r :: parse_stream cfg (snd r) ms
   end.
 
-(* sysloginput.compositeParser.Parse: the record of the underlying parser goes through the extraction
-   transforms ([extract], None = base.DROP: the record is released; the parser's counters are not
-   touched by that - the record stays counted as passed). *)
-Definition composite_parse (extract : record -> option record)
-                           (cfg : config) (cnt : counters) (input : bytes) : outcome (option record) * counters :=
-  match parse cfg cnt input with
-  | (Ok (Some r), c) => (Ok (extract r), c)
-  | other => other
-  end.
+(* sysloginput's composite parser (this parser followed by the input's extraction transforms) is
+   modelled in Model/Composite.v. *)
 
 (* ---------- correspondence entry point ----------
    kind 0: sargs = input :: mapping (no further item = default mapping, else the level mapping),
@@ -284,7 +277,8 @@ Definition show_result (compact : bool) (res : outcome (option record) * counter
   | (Panic _, c) => str_panic ++ colon :: show_counters c
   end.
 
-Definition run_case_C09 (c : case) : bytes :=
+(* kinds 0-2; Model/Composite.v adds kind 3 and defines run_case_C09 *)
+Definition run_case_C09_parser (c : case) : bytes :=
   let mm := Z.to_N (zarg c 0) in
   let mr := Z.to_N (zarg c 1) in
   match c_kind c with
